@@ -17,6 +17,32 @@ PLAN = {
     },
 }
 
+TECH = "contract-based deductive verification (symbolic execution of the real AST to VCs, z3)"
+NOTE = ("REAL arithmetic (floats as reals); builtin/list models and the loop-shape reading are trusted (A1, A2); "
+        "spec functions in /verif/spec are the reference semantics")
+
+PLAN["C08"] = {
+    "level": "proof",
+    "explanation": "insertSpace (both tier classes) proved equal, path by path, to the per-entry spec taken from the "
+                   "property; span/wf postconditions proved on the real outcome; constructors under contract.",
+    "bounded": [], "quick_canaries": 3,
+    "claim": "For all well-formed tiers, insertion points, durations > 0 and collision modes, the real insertSpace "
+             "returns exactly the entries the property prescribes (unchanged / shifted by d / stretched / split / "
+             "rejected), span lengthened by d, result well-formed.",
+    "note": NOTE + "; the rounding clause (RND/FP64) and the eraseRegion inverse law are separate obligations listed in "
+                   "the evidence when built", "technique": TECH,
+}
+PLAN["C09"] = {
+    "level": "proof",
+    "explanation": "editTimestamps (both tier classes) and appendTier proved equal to the property-derived specs "
+                   "(shift, drop, clip, OutOfBounds iff error mode and out of the old span, hull span); wf postconditions.",
+    "bounded": [], "quick_canaries": 3,
+    "claim": "For all well-formed tiers, offsets and reporting modes the real code moves every entry by exactly the "
+             "offset, drops/clips at 0 as stated, reports as the mode says, never shrinks the span; appendTier yields "
+             "A's entries followed by B's shifted by A's end with span [A.min, A.max+B.max].",
+    "note": NOTE, "technique": TECH,
+}
+
 NOT_CLAIMED = {}
 
 U = "praatio/utilities/utils.py"
@@ -43,6 +69,24 @@ CANARIES = [
     {"name": "pointcrop-inclusive", "props": ["C06"], "file": PT, "target": PTC + ".crop",
      "old": "timestamp >= cropStart and timestamp <= cropEnd", "new": "timestamp >= cropStart and timestamp < cropEnd",
      "config": ["mode=lax,rebaseToZero=False"]},
+    {"name": "edit-drop-boundary", "props": ["C09"], "file": IT, "target": ITC + ".editTimestamps",
+     "old": "if newEnd <= 0:", "new": "if newEnd < 0:", "config": ["reportingMode=silence"]},
+    {"name": "edit-clip", "props": ["C09"], "file": IT, "target": ITC + ".editTimestamps",
+     "old": "            if newStart < 0:\n                newStart = 0\n", "new": "", "config": ["reportingMode=silence"]},
+    {"name": "pedit-drop", "props": ["C09"], "file": PT, "target": PTC + ".editTimestamps",
+     "old": "if newTimestamp < 0:", "new": "if newTimestamp <= 0:", "config": ["reportingMode=silence"]},
+    {"name": "append-shift", "props": ["C09"], "file": "praatio/data_classes/textgrid_tier.py",
+     "target": "praatio.data_classes.textgrid_tier.TextgridTier.appendTier",
+     "old": "        appendTier = tier.editTimestamps(\n            self.maxTimestamp,", "new": "        appendTier = tier.editTimestamps(\n            self.maxTimestamp - self.minTimestamp,"},
+    {"name": "space-boundary", "props": ["C08"], "file": IT, "target": ITC + ".insertSpace",
+     "old": "            if interval.end <= start:\n                newEntryList.append(interval)\n            # Entry exists after",
+     "new": "            if interval.end < start:\n                newEntryList.append(interval)\n            # Entry exists after",
+     "config": ["collisionMode=stretch"]},
+    {"name": "space-split-right", "props": ["C08"], "file": IT, "target": ITC + ".insertSpace",
+     "old": "start + duration + (interval.end - start),", "new": "start + duration + (interval.end - interval.start),",
+     "config": ["collisionMode=split"]},
+    {"name": "pspace-boundary", "props": ["C08"], "file": PT, "target": PTC + ".insertSpace",
+     "old": "if point.time <= start:", "new": "if point.time < start:"},
     {"name": "ctor-no-sort", "props": ["C05"], "file": IT, "target": ITC + ".__init__",
      "old": "    processedEntries.sort()\n    return processedEntries", "new": "    return processedEntries"},
 ]
